@@ -34,6 +34,18 @@ pub struct Fault {
 }
 
 const RELATED: usize = usize::MAX - 1;
+/// companions the analyzer answers with "not implemented" (P9999): they are no errors of the user's,
+/// and they must not hide one either
+const UNSUPPORTED1: usize = usize::MAX - 2;
+const UNSUPPORTED2: usize = usize::MAX - 3;
+
+fn unsupported_companion(k: usize) -> Decl {
+    if k == UNSUPPORTED1 {
+        d("Unsup1", "fb", "FUNCTION_BLOCK Unsup1 VAR CONSTANT Table : ARRAY [ 1 .. 3 ] OF INT := [ 1 , 2 , 3 ] ; END_VAR VAR n : INT ; END_VAR n := 1 ; END_FUNCTION_BLOCK")
+    } else {
+        d("Unsup2", "program", "PROGRAM Unsup2 VAR CONSTANT Flag AT %MW1 : INT := 1 ; END_VAR VAR n : INT ; END_VAR n := 1 ; END_PROGRAM")
+    }
+}
 
 fn companions_pool() -> Vec<Decl> {
     vec![
@@ -177,6 +189,8 @@ fn texts_of(f: &Fault, pool: &[Decl], c: &CaseSpec) -> Vec<String> {
             name_user("Dup", f.decls[0].kind).unwrap_or_else(|| pool[0].clone())
         } else if *idx == RELATED {
             f.related.clone().unwrap_or_else(|| pool[0].clone())
+        } else if *idx == UNSUPPORTED1 || *idx == UNSUPPORTED2 {
+            unsupported_companion(*idx)
         } else {
             pool[*idx].clone()
         };
@@ -263,6 +277,8 @@ fn run_case_named(f: &Fault, pool: &[Decl], c: &CaseSpec, policy: usize) -> Outc
         "with-companions-using-the-name"
     } else if c.companions.contains(&RELATED) {
         "with-a-related-valid-declaration"
+    } else if c.companions.contains(&UNSUPPORTED1) || c.companions.contains(&UNSUPPORTED2) {
+        "with-a-declaration-the-analyzer-does-not-implement"
     } else {
         "with-valid-companions"
     };
@@ -320,6 +336,11 @@ pub fn cases(deep: bool) -> (Vec<Fault>, Vec<Decl>, Vec<CaseSpec>) {
         if f.kind.starts_with("duplicate") && name_user("Dup", f.decls[0].kind).is_some() {
             lists.push(vec![usize::MAX]);
             lists.push(vec![0, usize::MAX]);
+        }
+        if !f.file_level {
+            lists.push(vec![UNSUPPORTED1]);
+            lists.push(vec![UNSUPPORTED2]);
+            lists.push(vec![0, UNSUPPORTED1]);
         }
         if f.related.is_some() {
             lists.push(vec![RELATED]);
